@@ -61,7 +61,8 @@ REQUIRED = ["tables_exhaustive", "tables_random", "is_single_root_checked", "has
             "is_sorted_checked", "is_bifurcate_checked", "cyclic_tables", "forest_tables",
             "dsu_histories", "dsu_pair_queries", "dsu_invariant_evaluations", "dsu_histories_interleaved",
             "dsu_library_use_between_queries", "older_checker_names", "tree_level_checker",
-            "tables_with_ids_beyond_32_bits", "tables_under_custom_column_names", "repair_off",
+            "tables_with_ids_beyond_32_bits", "tables_under_custom_column_names",
+            "labellings_overwritten_by_the_caller", "repair_off",
             "repair_somas", "repair_nearest", "repair_table_functions", "repair_three_or_more_roots",
             "step_budget_calls", "frames_with_other_index", "rejected_calls_before_has_cyclic",
             "tables_regular_families", "checkers_on_int32_arrays",
@@ -158,6 +159,17 @@ def check_table(ctx, case):
 
     df = _df(ids, pids)
     call("is_single_root", lambda: su.is_single_root(df), conn)
+    if perm or len(set(ids.tolist())) == n:
+        # the component labelling is handed out as an array; a caller relabels it in place
+        # ("what if these were joined"); the checkers keep answering for the table
+        try:
+            lab = su.get_dsu(df)
+            if isinstance(lab, np.ndarray) and lab.flags.writeable and lab.size:
+                lab[...] = lab.flat[0]
+            ctx.count("labellings_overwritten_by_the_caller")
+        except Exception:
+            pass
+        call("is_single_root", lambda: su.is_single_root(df.copy()), conn)
     if n >= 2:
         # the same rows in a frame whose index is not 0..n-1 in row order (rows re-ordered or
         # filtered without reset_index, a frame indexed by something else): same table, same answer
